@@ -406,7 +406,7 @@ def stEnd (w : WavFile) : WaveFile :=
 
 theorem readChunks_canon (w : WavFile) (hw : w.Wf) :
     readChunks w.bytes w.bytes.length (w.bytes.length / 8 + 1) 12 {} = .ok (some (stEnd w)) := by
-  have hsmall := hw.small
+  have hsmall : w.bytes.length < 4294967295 := by have := hw.small; omega
   generalize hH : ([0x52, 0x49, 0x46, 0x46] ++ le32 (4 + w.body.length) ++ [0x57, 0x41, 0x56, 0x45] : Bytes) = H
   have hHl : H.length = 12 := by rw [← hH]; simp
   have hf : w.bytes = H ++ w.body := by rw [← hH]; rfl
@@ -519,6 +519,7 @@ theorem readWav_canon (w : WavFile) (hw : w.Wf) : readWav w.bytes = .ok (some (s
   have hbl : 24 ≤ w.body.length := by simp only [WavFile.body, List.length_append]; omega
   have hrc := readChunks_canon w hw
   unfold readWav
+  have h0 : ¬ w.bytes.length > Tables.wave_maxFileSize := by simp only [Tables.wave_maxFileSize]; omega
   have h1 : ¬ w.bytes.length < Tables.wave_minFileSize := by simp only [Tables.wave_minFileSize]; omega
   have h2 : w.bytes.take 4 = [0x52, 0x49, 0x46, 0x46] := by simp [WavFile.bytes]
   have h3 : rd32 w.bytes 4 = .ok (4 + w.body.length) := by
@@ -530,7 +531,7 @@ theorem readWav_canon (w : WavFile) (hw : w.Wf) : readWav w.bytes = .ok (some (s
     rw [this]
   have h4 : (w.bytes.drop 8).take 4 = [0x57, 0x41, 0x56, 0x45] := by simp [WavFile.bytes, le32]
   have h5 : u32 (4 + w.body.length + 8) = w.bytes.length := by rw [u32_small (by omega)]; omega
-  simp only [h1, if_false, h2, ne_eq, not_true_eq_false, h3, h4, h5, hrc]
+  simp only [h0, h1, if_false, h2, ne_eq, not_true_eq_false, h3, h4, h5, hrc]
   have : ¬ (stEnd w).ndata = 0 := by
     have : (stEnd w).ndata = w.pcm.channels := by
       unfold stEnd; split <;> rfl
